@@ -920,6 +920,36 @@ def r7_compile_error_without_position(ctx, sym):
                           "returning with a runtime feedback", construct=ci.name)
 
 
+def r8_tracers_do_not_swallow(ctx, sym):
+    ctx.rule('R8', "the execution sites run student code inside `with self.trace...`; a context manager whose __exit__ "
+                   "returns a true value swallows the exception before _execute's handlers see it. Every tracer class "
+                   "of TRACER_STYLES is entered and left abstractly by each kind of student exception (an ordinary "
+                   "Exception, SystemExit, bdb.BdbQuit and a subclass of it - a forgotten breakpoint() at end of "
+                   "input): __exit__ returns a false value")
+    from .c05 import tracer_drive, TRACER
+    from ..fdeval import truth
+    tmod = ctx.repo.module(TRACER)
+    table = literal(tmod.top_assign('TRACER_STYLES'), resolve_consts=False)
+    ctx.floor('R8', 'tracer styles', len(table), 4)
+    for style, cls_name in sorted(table.items()):
+        ci = sym.find_class(TRACER, str(cls_name))
+        exit_ = sym.method(ci, '__exit__')
+        if exit_ is None:
+            continue        # reported by C05.R5
+        for kind in (ValueError, SystemExit, 'BdbQuit', 'BdbQuit-subclass'):
+            kname = kind if isinstance(kind, str) else kind.__name__
+            res = tracer_drive(ctx, sym, cls_name, 'EY', exc_kind=kind)
+            swallowed = [v for v in res['exits'] if truth(v) is not False]
+            ctx.check(not swallowed and len(res['exits']) == 1, 'R8', 'tracer[%s]=%s:%s' % (style, cls_name, kname),
+                      exit_[0].module, exit_[1],
+                      "%s.__exit__ returns %r for a student program that ends with %s: the `with` statement swallows "
+                      "the exception" % (cls_name, swallowed[0] if swallowed else res['exits'], kname),
+                      "tracer_style=%r and a student program ending in `raise %s`: run() returns normally, "
+                      "sandbox.exception is None and no runtime feedback is attached" % (
+                          style, 'bdb.BdbQuit' if isinstance(kind, str) else kname + "('x')"),
+                      construct='%s.__exit__' % cls_name)
+
+
 def run(ctx):
     sym = Symbols(ctx.repo)
     r1_sites_guarded(ctx, sym)
@@ -929,6 +959,7 @@ def run(ctx):
     r5_block_list(ctx, sym)
     r6_threads(ctx, sym)
     r7_compile_error_without_position(ctx, sym)
+    r8_tracers_do_not_swallow(ctx, sym)
     ctx.assume("unbounded recursion surfaces as RecursionError (an Exception atom); interpreter exit by means other "
                "than SystemExit (os._exit, segfault) and resource exhaustion are not decided")
     ctx.assume("hostile-class protocols other than string conversion (__eq__, __bool__, attribute stores on the "
